@@ -4,28 +4,26 @@ package c01
 import (
 	"bytes"
 	"context"
-	"crypto"
-	"crypto/rand"
-	"crypto/rsa"
-	"crypto/sha256"
-	"crypto/sha512"
 	"crypto/x509"
-	"encoding/hex"
 	"encoding/pem"
 	"flag"
 	"fmt"
+	"io"
+	"net/http"
+	"os"
 	"strconv"
+	"strings"
 	"testing"
 	"time"
 
 	"github.com/google/gce-tcb-verifier/extract/extractsev"
+	"github.com/google/gce-tcb-verifier/extract/extracttdx"
 	"github.com/google/gce-tcb-verifier/gcetcbendorsement"
 	gcmd "github.com/google/gce-tcb-verifier/gcetcbendorsement/cmd"
 	epb "github.com/google/gce-tcb-verifier/proto/endorsement"
 	"github.com/google/gce-tcb-verifier/sev"
 	"github.com/google/gce-tcb-verifier/verify"
 	"google.golang.org/protobuf/proto"
-	"google.golang.org/protobuf/types/known/timestamppb"
 	"pgregory.net/rapid"
 
 	"verif/internal/attest"
@@ -33,249 +31,15 @@ import (
 	"verif/internal/pki"
 )
 
-func TestMain(m *testing.M) { ev.Main(m) }
+func TestMain(m *testing.M) {
+	setupAmbientRoot()
+	ev.Main(m)
+}
 
 func checks(n int) { flag.Set("rapid.checks", strconv.Itoa(n)) }
 
-var t0 = time.Date(2025, time.January, 1, 0, 0, 0, 0, time.UTC)
-
-// world is the PKI a case lives in.
-type world struct {
-	root, foreignRoot, sign, attackerSelf, attackerForeign *certAndKey
-	// signAlt[i] is a signing certificate for the genuine signing key, issued by the genuine root with
-	// issuerAlgs[i] instead of PSS/SHA-256 (the issuer's scheme says nothing about the key's scheme).
-	signAlt []*certAndKey
-}
-
-var issuerAlgs = []x509.SignatureAlgorithm{x509.SHA256WithRSA, x509.SHA384WithRSA, x509.SHA384WithRSAPSS, x509.SHA512WithRSAPSS, x509.SHA512WithRSA}
-
-// signWith signs payload with k in the scheme alg names.
-func signWith(k *rsa.PrivateKey, alg x509.SignatureAlgorithm, payload []byte) []byte {
-	var h crypto.Hash
-	var d []byte
-	switch alg {
-	case x509.SHA256WithRSA, x509.SHA256WithRSAPSS:
-		x := sha256.Sum256(payload)
-		h, d = crypto.SHA256, x[:]
-	case x509.SHA384WithRSA, x509.SHA384WithRSAPSS:
-		x := sha512.Sum384(payload)
-		h, d = crypto.SHA384, x[:]
-	default:
-		x := sha512.Sum512(payload)
-		h, d = crypto.SHA512, x[:]
-	}
-	var sig []byte
-	switch alg {
-	case x509.SHA256WithRSAPSS, x509.SHA384WithRSAPSS, x509.SHA512WithRSAPSS:
-		sig, _ = rsa.SignPSS(rand.Reader, k, h, d, &rsa.PSSOptions{SaltLength: rsa.PSSSaltLengthEqualsHash})
-	default:
-		sig, _ = rsa.SignPKCS1v15(rand.Reader, k, h, d)
-	}
-	return sig
-}
-
-type certAndKey struct {
-	cert *x509.Certificate
-	key  *rsa.PrivateKey
-}
-
-// makeWorld builds certificates whose validity windows are drawn. Keys come from the pool.
-func makeWorld(t *rapid.T) *world {
-	day := 24 * time.Hour
-	// signing certificate window relative to t0; the root window always covers it (root expiry is
-	// not part of the reference predicate; crypto/x509 is free to be stricter).
-	nbOff := rapid.IntRange(-400, 10).Draw(t, "signNotBeforeDays")
-	life := rapid.IntRange(1, 800).Draw(t, "signLifeDays")
-	snb := t0.Add(time.Duration(nbOff) * day)
-	sna := snb.Add(time.Duration(life) * day)
-	rnb := snb.Add(-30 * day)
-	rna := sna.Add(30 * day)
-	w := &world{}
-	w.root = &certAndKey{key: pki.Key(0)}
-	w.root.cert = pki.MakeCert(pki.CertSpec{CN: "verif-root", Serial: 1, NotBefore: rnb, NotAfter: rna, IsCA: true, Key: w.root.key})
-	w.foreignRoot = &certAndKey{key: pki.Key(3)}
-	w.foreignRoot.cert = pki.MakeCert(pki.CertSpec{CN: "verif-root", Serial: 1, NotBefore: rnb, NotAfter: rna, IsCA: true, Key: w.foreignRoot.key})
-	w.sign = &certAndKey{key: pki.Key(1)}
-	w.sign.cert = pki.MakeCert(pki.CertSpec{CN: "verif-signer", Serial: 2, NotBefore: snb, NotAfter: sna, Key: w.sign.key, Parent: w.root.cert, ParentKey: w.root.key})
-	w.attackerSelf = &certAndKey{key: pki.Key(2)}
-	w.attackerSelf.cert = pki.MakeCert(pki.CertSpec{CN: "verif-signer", Serial: 2, NotBefore: snb, NotAfter: sna, Key: w.attackerSelf.key})
-	w.attackerForeign = &certAndKey{key: pki.Key(2)}
-	w.attackerForeign.cert = pki.MakeCert(pki.CertSpec{CN: "verif-signer", Serial: 2, NotBefore: snb, NotAfter: sna, Key: w.attackerForeign.key, Parent: w.foreignRoot.cert, ParentKey: w.foreignRoot.key})
-	for i, a := range issuerAlgs {
-		c := &certAndKey{key: w.sign.key}
-		c.cert = pki.MakeCert(pki.CertSpec{CN: "verif-signer", Serial: int64(10 + i), NotBefore: snb, NotAfter: sna, Key: c.key, Parent: w.root.cert, ParentKey: w.root.key, SigAlg: a})
-		w.signAlt = append(w.signAlt, c)
-	}
-	return w
-}
-
-var (
-	snpMeas  = bytes.Repeat([]byte{0x5a}, 48)
-	snpMeas2 = bytes.Repeat([]byte{0xa5}, 48)
-	tdxMrtd  = bytes.Repeat([]byte{0x3c}, 48)
-)
-
-func baseGolden() *epb.VMGoldenMeasurement {
-	return &epb.VMGoldenMeasurement{
-		Timestamp: timestamppb.New(t0),
-		ClSpec:    4321,
-		Digest:    bytes.Repeat([]byte{0x11}, 48),
-		SevSnp: &epb.VMSevSnp{
-			Svn:          1,
-			Measurements: map[uint32][]byte{2: snpMeas, 4: snpMeas2},
-			FamilyId:     make([]byte, 16),
-			ImageId:      make([]byte, 16),
-			Policy:       0x70000,
-		},
-		Tdx: &epb.VMTdx{Svn: 1, Measurements: []*epb.VMTdx_Measurement{{RamGib: 16, Mrtd: tdxMrtd}}},
-	}
-}
-
-var mutations = []string{"none", "flip-signature", "flip-payload", "flip-certificate", "truncate-signature", "extend-signature",
-	"resign-attacker-key-keep-cert", "attacker-selfsigned-cert", "attacker-cert-from-foreign-root", "pkcs1v15-signature", "pss-sha384-signature",
-	"payload-field-changed-old-signature", "payload-unknown-field-appended", "empty-signature", "empty-certificate", "signed-by-root-key-root-as-cert",
-	"pss-max-salt", "signature-of-other-payload", "alt-issued-cert-signature-in-issuer-scheme", "alt-issued-cert-pss-signature"}
-
-type mutated struct {
-	e      *epb.VMLaunchEndorsement
-	kind   string
-	bucket string
-}
-
-func mutate(t *rapid.T, w *world) mutated {
-	kind := rapid.SampledFrom(mutations).Draw(t, "mutation")
-	g := baseGolden()
-	e := pki.Endorse(g, w.sign.cert.Raw, w.sign.key)
-	m := mutated{e: e, kind: kind}
-	flip := func(b []byte, lo, hi int, label string) []byte {
-		c := append([]byte(nil), b...)
-		if hi <= lo {
-			return c
-		}
-		pos := rapid.IntRange(lo, hi-1).Draw(t, label+"Pos")
-		bit := rapid.IntRange(0, 7).Draw(t, label+"Bit")
-		c[pos] ^= 1 << bit
-		m.bucket = fmt.Sprintf("%d/8", (pos-lo)*8/(hi-lo))
-		return c
-	}
-	switch kind {
-	case "none":
-	case "flip-signature":
-		e.Signature = flip(e.Signature, 0, len(e.Signature), "sig")
-	case "flip-payload":
-		e.SerializedUefiGolden = flip(e.SerializedUefiGolden, 0, len(e.SerializedUefiGolden), "payload")
-	case "flip-certificate":
-		off := bytes.Index(e.SerializedUefiGolden, w.sign.cert.Raw)
-		e.SerializedUefiGolden = flip(e.SerializedUefiGolden, off, off+len(w.sign.cert.Raw), "cert")
-	case "truncate-signature":
-		k := rapid.IntRange(1, len(e.Signature)).Draw(t, "cut")
-		e.Signature = e.Signature[:len(e.Signature)-k]
-	case "extend-signature":
-		e.Signature = append(e.Signature, rapid.SliceOfN(rapid.Byte(), 1, 4).Draw(t, "ext")...)
-	case "resign-attacker-key-keep-cert":
-		e.Signature = pki.SignPSS(w.attackerSelf.key, e.SerializedUefiGolden)
-	case "attacker-selfsigned-cert":
-		m.e = pki.Endorse(g, w.attackerSelf.cert.Raw, w.attackerSelf.key)
-	case "attacker-cert-from-foreign-root":
-		m.e = pki.Endorse(g, w.attackerForeign.cert.Raw, w.attackerForeign.key)
-	case "pkcs1v15-signature":
-		d := sha256.Sum256(e.SerializedUefiGolden)
-		e.Signature, _ = rsa.SignPKCS1v15(rand.Reader, w.sign.key, crypto.SHA256, d[:])
-	case "pss-sha384-signature":
-		d := sha512.Sum384(e.SerializedUefiGolden)
-		e.Signature, _ = rsa.SignPSS(rand.Reader, w.sign.key, crypto.SHA384, d[:], &rsa.PSSOptions{SaltLength: rsa.PSSSaltLengthEqualsHash})
-	case "payload-field-changed-old-signature":
-		g2 := &epb.VMGoldenMeasurement{}
-		proto.Unmarshal(e.SerializedUefiGolden, g2)
-		switch rapid.IntRange(0, 3).Draw(t, "field") {
-		case 0:
-			g2.Digest[0] ^= 1
-		case 1:
-			g2.SevSnp.Measurements[2] = append([]byte(nil), g2.SevSnp.Measurements[2]...)
-			g2.SevSnp.Measurements[2][47] ^= 0x80
-		case 2:
-			g2.ClSpec++
-		case 3:
-			g2.Tdx.Measurements = append(g2.Tdx.Measurements, &epb.VMTdx_Measurement{RamGib: 32, Mrtd: bytes.Repeat([]byte{9}, 48)})
-		}
-		e.SerializedUefiGolden, _ = proto.MarshalOptions{Deterministic: true}.Marshal(g2)
-	case "payload-unknown-field-appended":
-		// field 15, wire type 0, value 1
-		e.SerializedUefiGolden = append(append([]byte(nil), e.SerializedUefiGolden...), 0x78, 0x01)
-	case "empty-signature":
-		if rapid.Bool().Draw(t, "nilSig") {
-			e.Signature = nil
-		} else {
-			e.Signature = []byte{}
-		}
-	case "empty-certificate":
-		m.e = pki.Endorse(g, nil, w.sign.key)
-	case "signed-by-root-key-root-as-cert":
-		m.e = pki.Endorse(g, w.root.cert.Raw, w.root.key)
-	case "pss-max-salt":
-		d := sha256.Sum256(e.SerializedUefiGolden)
-		e.Signature, _ = rsa.SignPSS(rand.Reader, w.sign.key, crypto.SHA256, d[:], &rsa.PSSOptions{SaltLength: rsa.PSSSaltLengthAuto})
-	case "alt-issued-cert-signature-in-issuer-scheme":
-		// the certificate chains and is in its window, but the endorsement is signed in the scheme the
-		// ISSUER used for the certificate, not PSS/SHA-256
-		i := rapid.IntRange(0, len(issuerAlgs)-1).Draw(t, "issuerAlg")
-		m.e = pki.Endorse(g, w.signAlt[i].cert.Raw, w.sign.key)
-		m.e.Signature = signWith(w.sign.key, issuerAlgs[i], m.e.SerializedUefiGolden)
-		m.bucket = issuerAlgs[i].String()
-	case "alt-issued-cert-pss-signature":
-		i := rapid.IntRange(0, len(issuerAlgs)-1).Draw(t, "issuerAlg")
-		m.e = pki.Endorse(g, w.signAlt[i].cert.Raw, w.sign.key)
-		m.bucket = issuerAlgs[i].String()
-	case "signature-of-other-payload":
-		g2 := baseGolden()
-		g2.ClSpec = 9999
-		other := pki.Endorse(g2, w.sign.cert.Raw, w.sign.key)
-		e.Signature = other.Signature
-	}
-	return m
-}
-
-var rootKinds = []string{"genuine", "foreign-same-subject", "both", "empty-pool", "nil", "leaf-only", "genuine-and-leaf"}
-
-func rootSet(kind string, w *world, leaf *x509.Certificate) (roots []*x509.Certificate, pool *x509.CertPool) {
-	switch kind {
-	case "genuine":
-		roots = []*x509.Certificate{w.root.cert}
-	case "foreign-same-subject":
-		roots = []*x509.Certificate{w.foreignRoot.cert}
-	case "both":
-		roots = []*x509.Certificate{w.foreignRoot.cert, w.root.cert}
-	case "empty-pool":
-		roots = nil
-	case "nil":
-		return nil, nil
-	case "leaf-only":
-		roots = []*x509.Certificate{leaf}
-	case "genuine-and-leaf":
-		roots = []*x509.Certificate{w.root.cert, leaf}
-	}
-	return roots, pki.Pool(roots)
-}
-
-var timeClasses = []string{"inside", "notbefore-1s", "notbefore", "notafter", "notafter+1s", "zero-now", "far-future"}
-
-func pickTime(class string, c *x509.Certificate) time.Time {
-	switch class {
-	case "inside":
-		return c.NotBefore.Add(c.NotAfter.Sub(c.NotBefore) / 2)
-	case "notbefore-1s":
-		return c.NotBefore.Add(-time.Second)
-	case "notbefore":
-		return c.NotBefore
-	case "notafter":
-		return c.NotAfter
-	case "notafter+1s":
-		return c.NotAfter.Add(time.Second)
-	case "far-future":
-		return c.NotAfter.Add(24 * 365 * 10 * time.Hour)
-	}
-	return time.Time{}
-}
+// ---------------------------------------------------------------------------------------------
+// doubles
 
 type recGetter struct {
 	body map[string][]byte
@@ -288,6 +52,22 @@ func (g *recGetter) Get(url string) ([]byte, error) {
 		return b, nil
 	}
 	return nil, fmt.Errorf("404 %s", url)
+}
+
+// stubTransport stands in for net/http's default transport while an entry point that is hard-wired
+// to the real network getter runs. It never fails (a failure would send go-sev-guest's retrying
+// getter into minutes of back-off): unknown URLs get an empty 200 body.
+type stubTransport struct {
+	body map[string][]byte
+	urls []string
+}
+
+func (s *stubTransport) RoundTrip(r *http.Request) (*http.Response, error) {
+	u := r.URL.String()
+	s.urls = append(s.urls, u)
+	b := s.body[u]
+	return &http.Response{Status: "200 OK", StatusCode: 200, Proto: "HTTP/1.1", ProtoMajor: 1, ProtoMinor: 1,
+		Header: http.Header{}, Body: io.NopCloser(bytes.NewReader(b)), ContentLength: int64(len(b)), Request: r}, nil
 }
 
 type memIO struct {
@@ -317,25 +97,62 @@ func pemOf(roots []*x509.Certificate) []byte {
 	return b.Bytes()
 }
 
+// ---------------------------------------------------------------------------------------------
+// entry points
+
+// Every way the repository takes an endorsement and says yes or no. "+genuine-…" entries present
+// two sources at once: the caller's endorsement (the one under test, which takes precedence and
+// from which SevValidate derives its policy) next to a genuine one carried by the attestation.
 var entries = []string{"verify.Endorsement", "verify.EndorsementProto", "closure/blob", "closure/opts.Endorsement", "closure/getter",
 	"SevValidate/opts", "SevValidate/extras", "SevValidate/getter", "TdxValidate/opts", "cli/verify", "cli/sev-validate", "cli/tdx-validate",
-	// two sources at once: the caller's endorsement (the one under test, which takes precedence and
-	// from which SevValidate derives its policy) next to a genuine one carried by the attestation
-	"closure/opts+genuine-blob", "SevValidate/opts+genuine-extras", "cli/sev-validate+genuine-extras"}
+	"closure/opts+genuine-blob", "SevValidate/opts+genuine-extras", "cli/sev-validate+genuine-extras",
+	// round 4: option combinations and sources that were never driven
+	"SevValidate/opts+vmsas2", "SevValidate/force-gcs+genuine-extras", "SevValidate/force-gcs-getter",
+	"TdxValidate/fetched", "cli/tdx-validate/fetched",
+	"cli/verify/default-root", "cli/sev-validate/extras", "cli/sev-validate/getter", "cli/sev-validate/force-gcs"}
 
-// genuineFor returns a genuine endorsement (same PKI world as e's) to accompany the one under test.
-var genuineBlob func() []byte
+func isCLI(entry string) bool { return strings.HasPrefix(entry, "cli/") }
 
-// run executes one entry point; returns accepted, error text. pan != nil when the code panicked.
-func run(entry string, e *epb.VMLaunchEndorsement, pool *x509.CertPool, roots []*x509.Certificate, now time.Time, snpOptKind int) (accepted bool, errText string, pan any) {
-	defer func() {
-		if r := recover(); r != nil {
-			pan = r
-		}
-	}()
-	eb, _ := proto.Marshal(e)
+// pure entries decide on the endorsement alone (no attestation policy in the way).
+func isPure(entry string) bool {
+	return strings.HasPrefix(entry, "verify.") || strings.HasPrefix(entry, "closure/") || strings.HasPrefix(entry, "cli/verify")
+}
+
+func needsSnp(entry string) bool {
+	return strings.HasPrefix(entry, "closure/") || strings.HasPrefix(entry, "SevValidate/") || strings.HasPrefix(entry, "cli/sev-validate")
+}
+
+func needsTdx(entry string) bool {
+	return strings.HasPrefix(entry, "TdxValidate/") || strings.HasPrefix(entry, "cli/tdx-validate")
+}
+
+func usesSnpOpts(entry string) bool { return strings.HasPrefix(entry, "verify.") || strings.HasPrefix(entry, "closure/") }
+
+// defaultRootOnly: the caller names no root file, so the caller's root set is what the configured
+// getter serves at the documented default root URL.
+func defaultRootOnly(entry string) bool { return entry == "cli/verify/default-root" }
+
+const tpmEventLog = "/sys/kernel/security/tpm0/binary_bios_measurements"
+
+type runCfg struct {
+	entry      string
+	e          *epb.VMLaunchEndorsement
+	pool       *x509.CertPool
+	roots      []*x509.Certificate
+	now        time.Time
+	snpOptKind int
+	genuine    []byte            // a genuine endorsement of the same world (two-source entries)
+	attFmt     string            // attestation rendering for CLI entries: tpm|snpproto|raw (tdx: raw|tpm)
+	rootDER    bool              // hand the CLI a DER root file (only with exactly one root)
+	decoy      *x509.Certificate // served at the default root URL while the caller names its own root file
+}
+
+// run executes one entry point. pan != nil: the code under test panicked. skip != "": the harness
+// could not set the case up (not judged).
+func run(c runCfg) (accepted bool, errText string, pan any, skip string) {
+	eb, _ := proto.Marshal(c.e)
 	var snpOpts *verify.SNPOptions
-	switch snpOptKind {
+	switch c.snpOptKind {
 	case 1:
 		snpOpts = &verify.SNPOptions{}
 	case 2:
@@ -343,77 +160,196 @@ func run(entry string, e *epb.VMLaunchEndorsement, pool *x509.CertPool, roots []
 	case 3:
 		snpOpts = &verify.SNPOptions{Measurement: snpMeas, ExpectedLaunchVMSAs: 2}
 	}
-	url := verify.GCETcbURL(extractsev.GCETcbObjectName(sev.GCEUefiFamilyID, snpMeas))
-	var err error
+	snpURL := verify.GCETcbURL(extractsev.GCETcbObjectName(sev.GCEUefiFamilyID, snpMeas))
+	tdxURL := verify.GCETcbURL(extracttdx.GCETcbObjectName(tdxMrtd))
 	ctx := context.Background()
-	switch entry {
+	extras := func(b []byte) map[string][]byte { return map[string][]byte{sev.GCEFwCertGUID: b} }
+
+	// everything the harness prepares happens before the code under test is called
+	var call func() error
+	switch c.entry {
 	case "verify.Endorsement":
-		err = verify.Endorsement(eb, &verify.Options{RootsOfTrust: pool, Now: now, SNP: snpOpts})
-	case "verify.EndorsementProto":
-		err = verify.EndorsementProto(e, &verify.Options{RootsOfTrust: pool, Now: now, SNP: snpOpts})
-	case "closure/blob":
-		f := verify.SNPValidateFunc(&verify.Options{RootsOfTrust: pool, Now: now, SNP: snpOpts})
-		err = f(attest.SnpAttestation(snpMeas, nil), eb)
-	case "closure/opts.Endorsement":
-		f := verify.SNPValidateFunc(&verify.Options{RootsOfTrust: pool, Now: now, SNP: snpOpts, Endorsement: e})
-		err = f(attest.SnpAttestation(snpMeas, nil), nil)
-	case "closure/opts+genuine-blob":
-		f := verify.SNPValidateFunc(&verify.Options{RootsOfTrust: pool, Now: now, SNP: snpOpts, Endorsement: e})
-		err = f(attest.SnpAttestation(snpMeas, nil), genuineBlob())
-	case "SevValidate/opts+genuine-extras":
-		err = gcetcbendorsement.SevValidate(ctx, attest.SnpAttestation(snpMeas, map[string][]byte{sev.GCEFwCertGUID: genuineBlob()}), &gcetcbendorsement.SevValidateOptions{Endorsement: e, RootsOfTrust: pool, Now: now})
-	case "closure/getter":
-		f := verify.SNPValidateFunc(&verify.Options{RootsOfTrust: pool, Now: now, SNP: snpOpts, Getter: &recGetter{body: map[string][]byte{url: eb}}})
-		err = f(attest.SnpAttestation(snpMeas, nil), nil)
-	case "SevValidate/opts":
-		err = gcetcbendorsement.SevValidate(ctx, attest.SnpAttestation(snpMeas, nil), &gcetcbendorsement.SevValidateOptions{Endorsement: e, RootsOfTrust: pool, Now: now})
-	case "SevValidate/extras":
-		err = gcetcbendorsement.SevValidate(ctx, attest.SnpAttestation(snpMeas, map[string][]byte{sev.GCEFwCertGUID: eb}), &gcetcbendorsement.SevValidateOptions{RootsOfTrust: pool, Now: now})
-	case "SevValidate/getter":
-		err = gcetcbendorsement.SevValidate(ctx, attest.SnpAttestation(snpMeas, nil), &gcetcbendorsement.SevValidateOptions{RootsOfTrust: pool, Now: now, Getter: &recGetter{body: map[string][]byte{url: eb}}})
-	case "TdxValidate/opts":
-		err = gcetcbendorsement.TdxValidate(ctx, attest.TdxRawQuote(tdxMrtd), &gcetcbendorsement.TdxValidateOptions{Endorsement: e, RootsOfTrust: pool, Now: now})
-	case "cli/verify", "cli/sev-validate", "cli/tdx-validate", "cli/sev-validate+genuine-extras":
-		files := map[string][]byte{"e.binarypb": eb, "roots.pem": pemOf(roots)}
-		var args []string
-		switch entry {
-		case "cli/verify":
-			args = []string{"verify", "e.binarypb", "--root_cert", "roots.pem"}
-		case "cli/sev-validate":
-			fs, ferr := attest.SnpFormats(attest.SnpAttestation(snpMeas, nil))
-			if ferr != nil {
-				panic("harness: " + ferr.Error())
-			}
-			files["att.bin"] = fs["tpm"]
-			args = []string{"sev", "validate", "att.bin", "--endorsement", "e.binarypb", "--root_cert", "roots.pem"}
-		case "cli/sev-validate+genuine-extras":
-			fs, ferr := attest.SnpFormats(attest.SnpAttestation(snpMeas, map[string][]byte{sev.GCEFwCertGUID: genuineBlob()}))
-			if ferr != nil {
-				panic("harness: " + ferr.Error())
-			}
-			files["att.bin"] = fs["tpm"]
-			args = []string{"sev", "validate", "att.bin", "--endorsement", "e.binarypb", "--root_cert", "roots.pem"}
-		case "cli/tdx-validate":
-			files["quote.bin"] = attest.TdxRawQuote(tdxMrtd)
-			args = []string{"tdx", "validate", "quote.bin", "--endorsement", "e.binarypb", "--root_cert", "roots.pem"}
+		call = func() error {
+			return verify.Endorsement(eb, &verify.Options{RootsOfTrust: c.pool, Now: c.now, SNP: snpOpts})
 		}
-		root := gcmd.VerifMakeRoot(ctx, &gcmd.Backend{IO: &memIO{files: files}, Now: now, Getter: &recGetter{}})
-		root.SetArgs(args)
-		root.SetOut(&bytes.Buffer{})
-		root.SetErr(&bytes.Buffer{})
-		root.SilenceUsage = true
-		root.SilenceErrors = true
-		err = root.Execute()
+	case "verify.EndorsementProto":
+		call = func() error {
+			return verify.EndorsementProto(c.e, &verify.Options{RootsOfTrust: c.pool, Now: c.now, SNP: snpOpts})
+		}
+	case "closure/blob":
+		call = func() error {
+			return verify.SNPValidateFunc(&verify.Options{RootsOfTrust: c.pool, Now: c.now, SNP: snpOpts})(attest.SnpAttestation(snpMeas, nil), eb)
+		}
+	case "closure/opts.Endorsement":
+		call = func() error {
+			return verify.SNPValidateFunc(&verify.Options{RootsOfTrust: c.pool, Now: c.now, SNP: snpOpts, Endorsement: c.e})(attest.SnpAttestation(snpMeas, nil), nil)
+		}
+	case "closure/opts+genuine-blob":
+		call = func() error {
+			return verify.SNPValidateFunc(&verify.Options{RootsOfTrust: c.pool, Now: c.now, SNP: snpOpts, Endorsement: c.e})(attest.SnpAttestation(snpMeas, nil), c.genuine)
+		}
+	case "closure/getter":
+		call = func() error {
+			return verify.SNPValidateFunc(&verify.Options{RootsOfTrust: c.pool, Now: c.now, SNP: snpOpts, Getter: &recGetter{body: map[string][]byte{snpURL: eb}}})(attest.SnpAttestation(snpMeas, nil), nil)
+		}
+	case "SevValidate/opts":
+		call = func() error {
+			return gcetcbendorsement.SevValidate(ctx, attest.SnpAttestation(snpMeas, nil), &gcetcbendorsement.SevValidateOptions{Endorsement: c.e, RootsOfTrust: c.pool, Now: c.now})
+		}
+	case "SevValidate/opts+vmsas2":
+		call = func() error {
+			return gcetcbendorsement.SevValidate(ctx, attest.SnpAttestation(snpMeas, nil), &gcetcbendorsement.SevValidateOptions{Endorsement: c.e, RootsOfTrust: c.pool, Now: c.now, ExpectedLaunchVmsas: 2})
+		}
+	case "SevValidate/opts+genuine-extras":
+		call = func() error {
+			return gcetcbendorsement.SevValidate(ctx, attest.SnpAttestation(snpMeas, extras(c.genuine)), &gcetcbendorsement.SevValidateOptions{Endorsement: c.e, RootsOfTrust: c.pool, Now: c.now})
+		}
+	case "SevValidate/force-gcs+genuine-extras":
+		// forced fetch: the validator is registered under a GUID the table does not carry; the caller's
+		// endorsement still is the one that decides
+		call = func() error {
+			return gcetcbendorsement.SevValidate(ctx, attest.SnpAttestation(snpMeas, extras(c.genuine)), &gcetcbendorsement.SevValidateOptions{Endorsement: c.e, RootsOfTrust: c.pool, Now: c.now,
+				TestonlyForceGCS: true, Getter: &recGetter{body: map[string][]byte{snpURL: c.genuine}}})
+		}
+	case "SevValidate/force-gcs-getter":
+		call = func() error {
+			return gcetcbendorsement.SevValidate(ctx, attest.SnpAttestation(snpMeas, nil), &gcetcbendorsement.SevValidateOptions{RootsOfTrust: c.pool, Now: c.now,
+				TestonlyForceGCS: true, Getter: &recGetter{body: map[string][]byte{snpURL: eb}}})
+		}
+	case "SevValidate/extras":
+		call = func() error {
+			return gcetcbendorsement.SevValidate(ctx, attest.SnpAttestation(snpMeas, extras(eb)), &gcetcbendorsement.SevValidateOptions{RootsOfTrust: c.pool, Now: c.now})
+		}
+	case "SevValidate/getter":
+		call = func() error {
+			return gcetcbendorsement.SevValidate(ctx, attest.SnpAttestation(snpMeas, nil), &gcetcbendorsement.SevValidateOptions{RootsOfTrust: c.pool, Now: c.now, Getter: &recGetter{body: map[string][]byte{snpURL: eb}}})
+		}
+	case "TdxValidate/opts":
+		call = func() error {
+			return gcetcbendorsement.TdxValidate(ctx, attest.TdxRawQuote(tdxMrtd), &gcetcbendorsement.TdxValidateOptions{Endorsement: c.e, RootsOfTrust: c.pool, Now: c.now})
+		}
+	case "TdxValidate/fetched":
+		// no caller endorsement: TdxValidate looks for the measured-boot event log (absent here) and
+		// then asks the bucket through the process-wide HTTP client, which the stub answers
+		if _, err := os.Stat(tpmEventLog); err == nil {
+			return false, "", nil, "machine has a TPM event log"
+		}
+		call = func() error {
+			return gcetcbendorsement.TdxValidate(ctx, attest.TdxRawQuote(tdxMrtd), &gcetcbendorsement.TdxValidateOptions{RootsOfTrust: c.pool, Now: c.now})
+		}
 	default:
-		panic("harness: entry " + entry)
+		if !isCLI(c.entry) {
+			return false, "", nil, "unknown entry " + c.entry
+		}
+		files := map[string][]byte{"e.binarypb": eb}
+		getter := &recGetter{body: map[string][]byte{}}
+		rootArgs := []string{"--root_cert", "roots.pem"}
+		if defaultRootOnly(c.entry) {
+			rootArgs = nil
+			if c.rootDER && len(c.roots) == 1 {
+				getter.body[gcetcbendorsement.DefaultRootURL] = c.roots[0].Raw
+			} else {
+				getter.body[gcetcbendorsement.DefaultRootURL] = pemOf(c.roots)
+			}
+		} else {
+			files["roots.pem"] = pemOf(c.roots)
+			if c.rootDER && len(c.roots) == 1 {
+				files["roots.pem"] = c.roots[0].Raw
+			}
+			if c.decoy != nil {
+				// the caller named its roots; what the default URL serves is none of them
+				getter.body[gcetcbendorsement.DefaultRootURL] = pemOf([]*x509.Certificate{c.decoy})
+			}
+		}
+		snpAtt := func(ex map[string][]byte) (string, bool) {
+			fs, err := attest.SnpFormats(attest.SnpAttestation(snpMeas, ex))
+			f := c.attFmt
+			if f == "" {
+				f = "tpm"
+			}
+			if err != nil || fs[f] == nil {
+				return fmt.Sprintf("attestation rendering %s: %v", f, err), false
+			}
+			files["att.bin"] = fs[f]
+			return "", true
+		}
+		var args []string
+		var ok bool
+		switch c.entry {
+		case "cli/verify", "cli/verify/default-root":
+			args, ok = []string{"verify", "e.binarypb"}, true
+		case "cli/sev-validate":
+			skip, ok = snpAtt(nil)
+			args = []string{"sev", "validate", "att.bin", "--endorsement", "e.binarypb"}
+		case "cli/sev-validate+genuine-extras":
+			skip, ok = snpAtt(extras(c.genuine))
+			args = []string{"sev", "validate", "att.bin", "--endorsement", "e.binarypb"}
+		case "cli/sev-validate/extras":
+			skip, ok = snpAtt(extras(eb))
+			args = []string{"sev", "validate", "att.bin"}
+		case "cli/sev-validate/getter":
+			skip, ok = snpAtt(nil)
+			getter.body[snpURL] = eb
+			args = []string{"sev", "validate", "att.bin"}
+		case "cli/sev-validate/force-gcs":
+			skip, ok = snpAtt(nil)
+			getter.body[snpURL] = eb
+			args = []string{"sev", "validate", "att.bin", "--testonly_force_gcs"}
+		case "cli/tdx-validate", "cli/tdx-validate/fetched":
+			fs, err := attest.TdxFormats(tdxMrtd)
+			f := c.attFmt
+			if f != "tpm" {
+				f = "raw"
+			}
+			if err != nil || fs[f] == nil {
+				return false, "", nil, fmt.Sprintf("quote rendering %s: %v", f, err)
+			}
+			files["quote.bin"] = fs[f]
+			args, ok = []string{"tdx", "validate", "quote.bin"}, true
+			if c.entry == "cli/tdx-validate" {
+				args = append(args, "--endorsement", "e.binarypb")
+			} else if _, err := os.Stat(tpmEventLog); err == nil {
+				return false, "", nil, "machine has a TPM event log"
+			}
+		default:
+			return false, "", nil, "unknown entry " + c.entry
+		}
+		if !ok {
+			return false, "", nil, skip
+		}
+		args = append(args, rootArgs...)
+		call = func() error {
+			root := gcmd.VerifMakeRoot(ctx, &gcmd.Backend{IO: &memIO{files: files}, Now: c.now, Getter: getter})
+			root.SetArgs(args)
+			root.SetOut(&bytes.Buffer{})
+			root.SetErr(&bytes.Buffer{})
+			root.SilenceUsage = true
+			root.SilenceErrors = true
+			return root.Execute()
+		}
+	}
+	if strings.HasSuffix(c.entry, "/fetched") {
+		old := http.DefaultTransport
+		http.DefaultTransport = &stubTransport{body: map[string][]byte{tdxURL: eb}}
+		defer func() { http.DefaultTransport = old }()
+	}
+	var err error
+	func() {
+		defer func() {
+			if r := recover(); r != nil {
+				pan = r
+			}
+		}()
+		err = call()
+	}()
+	if pan != nil {
+		return false, "", pan, ""
 	}
 	if err != nil {
-		return false, err.Error(), nil
+		return false, err.Error(), nil, ""
 	}
-	return true, "", nil
+	return true, "", nil, ""
 }
-
-func isCLI(entry string) bool { return len(entry) > 4 && entry[:4] == "cli/" }
 
 func leafOf(e *epb.VMLaunchEndorsement) *x509.Certificate {
 	g := &epb.VMGoldenMeasurement{}
@@ -432,59 +368,114 @@ func reachesCryptoStage(e *epb.VMLaunchEndorsement) bool {
 	if proto.Unmarshal(e.GetSerializedUefiGolden(), g) != nil {
 		return false
 	}
-	return len(g.GetCert()) > 0 && g.GetTimestamp() != nil && (g.GetClSpec() != 0 || len(g.GetCommit()) != 0)
+	if len(g.GetCert()) == 0 || g.GetTimestamp() == nil {
+		return false
+	}
+	legacy := !g.GetTimestamp().AsTime().After(uefiReleaseChange)
+	return legacy || g.GetClSpec() != 0 || len(g.GetCommit()) != 0
 }
 
-func checkCase(t ev.TB, name, entry string, m mutated, rootKind, timeClass string, w *world, snpOptKind int) {
+type caseSpec struct {
+	entry      string
+	m          mutated
+	rootKind   string
+	timeClass  string
+	snpOptKind int
+	attFmt     string
+	rootDER    bool
+}
+
+// checkCase runs one case and judges it: accept => authentic. Returns whether the entry accepted.
+func checkCase(t ev.TB, name string, cs caseSpec, w *world) (accepted bool) {
+	entry, m, rootKind, timeClass := cs.entry, cs.m, cs.rootKind, cs.timeClass
 	leaf := leafOf(m.e)
 	if leaf == nil {
 		leaf = w.sign.cert
 	}
 	roots, pool := rootSet(rootKind, w, leaf)
-	if isCLI(entry) && len(roots) == 0 {
-		// the CLI cannot express an empty or absent root set (an unparsable root file is refused
+	if isCLI(entry) && len(roots) == 0 && !defaultRootOnly(entry) {
+		// a root file cannot express an empty or absent root set (an unparsable root file is refused
 		// before verification starts); use the foreign root instead so the case stays meaningful.
 		rootKind = "foreign-same-subject"
 		roots, pool = rootSet(rootKind, w, leaf)
 	}
 	now := pickTime(timeClass, leaf)
-	genuineBlob = func() []byte {
-		b, _ := proto.Marshal(pki.Endorse(baseGolden(), w.sign.cert.Raw, w.sign.key))
-		return b
+	rc := runCfg{entry: entry, e: m.e, pool: pool, roots: roots, now: now, snpOptKind: cs.snpOptKind, attFmt: cs.attFmt, rootDER: cs.rootDER}
+	if strings.Contains(entry, "genuine-") {
+		rc.genuine, _ = proto.Marshal(pki.Endorse(baseGolden(), w.sign.cert.Raw, w.sign.rsa()))
 	}
-	accepted, errText, pan := run(entry, m.e, pool, roots, now, snpOptKind)
+	if isCLI(entry) {
+		// never one of the caller's roots unless the caller listed it
+		rc.decoy = w.get("foreignRoot").cert
+	}
+	accepted, errText, pan, skip := run(rc)
+	if skip != "" {
+		ev.Note("case not set up at %s: %s", entry, skip)
+		ev.Case(name, false, "", "inconclusive/harness:"+entry, nil)
+		return false
+	}
 	if pan != nil {
 		// totality is C07's business; record and do not judge here
 		ev.Note("panic observed at %s with mutation %s (judged by C07): %v", entry, m.kind, pan)
-		ev.Case(name, false, "", entry+"/panic", nil)
-		return
+		ev.Case(name, false, "", "inconclusive/panic:"+entry, nil)
+		return false
 	}
-	refOK, why := pki.RefAuthentic(m.e, roots, now)
+	refOK, why, decided := refAuthentic(m.e, roots, now)
+	if !decided {
+		ev.Case(name, false, "", "inconclusive/now-within-a-day-of-a-window-edge", nil)
+		return accepted
+	}
 	if accepted && !refOK {
 		tech := "snp"
-		if entry == "TdxValidate/opts" || entry == "cli/tdx-validate" {
+		if needsTdx(entry) {
 			tech = "tdx-validate"
 		}
-		ev.Violation(t, "C01/"+tech+"/accepted-unauthentic", "entry %s accepted an endorsement that is not authentic: %s (mutation=%s roots=%s time=%s [%v] cert window [%v,%v])",
-			entry, why, m.kind, rootKind, timeClass, now, leaf.NotBefore, leaf.NotAfter)
-		return
+		ev.Violation(t, "C01/"+tech+"/accepted-unauthentic", "entry %s accepted an endorsement that is not authentic: %s (mutation=%s payload=%s roots=%s time=%s [%v] cert window [%v,%v])",
+			entry, why, m.kind, m.shape, rootKind, timeClass, now, leaf.NotBefore, leaf.NotAfter)
+		return accepted
 	}
-	genuine := m.kind == "none" && (rootKind == "genuine" || rootKind == "both" || rootKind == "genuine-and-leaf" || rootKind == "leaf-only") && (timeClass == "inside" || timeClass == "notbefore" || timeClass == "notafter")
+	// Converse sanity, not the property: it keeps the check from going vacuous. Only where nothing but
+	// the endorsement decides (library verifier, validator closure, `verify` command), only with the
+	// issuing root among the caller's roots and a time strictly inside the window.
+	genuine := m.kind == "none" && (rootKind == "genuine" || rootKind == "both" || rootKind == "genuine-and-leaf") && timeClass == "inside"
 	if genuine && !accepted {
-		ev.Violation(t, "C01/genuine-rejected", "entry %s rejected a genuine endorsement (roots=%s time=%s): %s", entry, rootKind, timeClass, errText)
-		return
+		switch {
+		case isPure(entry) && (shapeHasSnp(m.shape) || (!needsSnp(entry) && cs.snpOptKind == 0) || isCLI(entry)):
+			ev.Violation(t, "C01/genuine-rejected", "entry %s rejected a genuine endorsement (payload=%s roots=%s time=%s snpOpts=%d): %s", entry, m.shape, rootKind, timeClass, cs.snpOptKind, errText)
+			return accepted
+		case (needsSnp(entry) && shapeHasSnp(m.shape)) || (needsTdx(entry) && m.shape != "snp-only"):
+			// the attestation side (policy derived from the endorsement, third-party validation) may
+			// legitimately say no; that is not an authenticity question
+			ev.Note("genuine endorsement rejected at %s (payload=%s; not judged): %s", entry, m.shape, trunc(errText, 120))
+			ev.Class(name, "inconclusive/genuine-rejected-beyond-authenticity:"+entry)
+		}
 	}
 	nontrivial := (!refOK && reachesCryptoStage(m.e)) || (refOK && accepted)
 	outcome := "rejected"
 	if accepted {
 		outcome = "accepted"
 	}
-	ev.Case(name, nontrivial, entry+"|"+m.kind+"|"+rootKind+"|"+timeClass+"|"+m.bucket+"|"+strconv.Itoa(snpOptKind), m.kind+"/"+outcome, func() any {
-		return map[string]any{"entry": entry, "mutation": m.kind, "roots": rootKind, "time": timeClass, "accepted": accepted, "reference_authentic": refOK, "why_not": why, "error": trunc(errText, 160)}
+	canon := entry + "|" + m.kind + "|" + m.shape + "|" + rootKind + "|" + timeClass + "|" + m.bucket
+	if usesSnpOpts(entry) {
+		canon += "|" + strconv.Itoa(cs.snpOptKind)
+	}
+	if isCLI(entry) {
+		canon += "|" + cs.attFmt + "|" + strconv.FormatBool(cs.rootDER)
+	}
+	ev.Case(name, nontrivial, canon, m.kind+"/"+outcome, func() any {
+		return map[string]any{"entry": entry, "mutation": m.kind, "payload": m.shape, "roots": rootKind, "time": timeClass, "accepted": accepted, "reference_authentic": refOK, "why_not": why, "error": trunc(errText, 160)}
 	})
 	ev.Class(name, "entry:"+entry)
 	ev.Class(name, "roots:"+rootKind)
 	ev.Class(name, "time:"+timeClass)
+	ev.Class(name, "payload:"+m.shape)
+	if refOK && accepted {
+		ev.Class(name, "authentic-accepted@"+entry)
+	}
+	if timeClass == "zero-now" {
+		ev.Class(name, "zero-now/"+outcome)
+	}
+	return accepted
 }
 
 func trunc(s string, n int) string {
@@ -494,71 +485,165 @@ func trunc(s string, n int) string {
 	return s
 }
 
-const ruleText = "genuine endorsement (harness CA, RSA-2048, PSS/SHA-256) x mutation {none, bit flip in signature/payload/certificate at drawn position, truncate/extend signature, re-sign with attacker key, attacker self-signed cert, attacker cert from foreign root with identical subject, PKCS#1v1.5, PSS/SHA-384, certificate issued in another scheme {PKCS#1v1.5 or PSS with SHA-256/384/512} with the endorsement signed in that scheme or in PSS/SHA-256, payload field changed or unknown field appended with old signature, empty signature/certificate, root-as-cert, max-salt PSS, signature of another payload} x root set {genuine, foreign same-subject, both, empty pool, nil, leaf only, genuine+leaf} x time {inside, NotBefore-1s, NotBefore, NotAfter, NotAfter+1s, zero=now, far future} with drawn validity windows x entry point {verify.Endorsement, EndorsementProto, validator closure (blob/opts/getter), SevValidate (opts/extras/getter), TdxValidate, CLI verify|sev validate|tdx validate} x SNP options; oracle: accept => RefAuthentic(endorsement, roots, t) (independent RSA-PSS + issuer-signature + window check, deliberately weaker than crypto/x509); genuine+trusted+in-window => accept; non-trivial = reaches the certificate/signature stage and breaks an authenticity clause, or accepted genuine; distinct = (entry, mutation, roots, time, position bucket, SNP option shape)"
+const oracleText = "oracle: accept => authentic(endorsement, caller's roots, caller's time): payload parses, certificate is a root or linked to one by valid issuer signatures, time inside its window (zero = now, judged only when a day either way agrees), RSA key, RSA-PSS/SHA-256 signature (any salt) over exactly the stored payload bytes; deliberately weaker than crypto/x509. Sanity (library verifier, closure, `verify` command only): unmutated + issuing root trusted + strictly inside window => accept; a genuine endorsement refused by a validate entry point is counted as inconclusive, not judged. non-trivial = reaches the certificate/signature stage and breaks an authenticity clause, or accepted authentic"
+
+const spaceText = "endorsement (harness CA, RSA-2048, PSS/SHA-256) over payload shape {base, pre-release-change timestamp without provenance, timestamp inside the certificate window, timestamp at the release change, far-future timestamp, commit provenance, SNP only, TDX only, CA bundle, SVSM measurement} x mutation {none, bit flip in signature/payload/certificate, truncate/extend signature, re-sign with attacker key, attacker self-signed cert, attacker cert from foreign root with identical subject, cert from the process's ambient system-store root, PKCS#1v1.5, PSS/SHA-384, certificate issued in another scheme with the endorsement signed in that scheme or in PSS/SHA-256, ECDSA / Ed25519 leaf genuinely issued with a signature by that key, payload field changed / unknown field appended / same content re-encoded with old signature, empty signature/certificate, root-as-cert, max-salt PSS, signature of another payload} x root set {genuine, foreign same-subject, both, empty pool, nil, leaf only, genuine+leaf} x time {inside, NotBefore-1s, NotBefore, NotAfter, NotAfter+1s, zero=now, far future} with drawn validity windows (a quarter long-lived) x entry point {verify.Endorsement, EndorsementProto, validator closure (blob/opts/getter/two sources), SevValidate (opts/extras/getter/two sources/VMSA count/forced fetch), TdxValidate (opts / fetched through a stubbed process-wide HTTP transport), CLI verify (root file or default root URL, PEM or DER) | sev validate (--endorsement, cert table, getter, forced fetch; tpm/proto/raw rendering) | tdx validate (--endorsement or fetched); a foreign root is served at the default root URL whenever the caller names a root file} x SNP options"
 
 func TestAuthenticity(t *testing.T) {
 	const name = "authenticity/random"
-	ev.Rule(name, ruleText)
-	checks(ev.Scale(2500, 20000))
+	ev.Rule(name, spaceText+"; entries, kinds, roots, times drawn flat; "+oracleText+"; distinct = (entry, mutation, payload, roots, time, position bucket, SNP option shape where the entry has one, CLI rendering)")
+	checks(ev.Scale(3000, 20000))
 	rapid.Check(t, func(t *rapid.T) {
 		w := makeWorld(t)
-		m := mutate(t, w)
-		entry := rapid.SampledFrom(entries).Draw(t, "entry")
-		rootKind := rapid.SampledFrom(rootKinds).Draw(t, "roots")
-		timeClass := rapid.SampledFrom(timeClasses).Draw(t, "time")
-		// bias: half of the cases keep everything but one thing genuine so that the single broken
-		// clause decides the outcome
-		if rapid.Bool().Draw(t, "isolate") {
-			switch rapid.IntRange(0, 2).Draw(t, "keep") {
-			case 0:
-				rootKind, timeClass = "genuine", "inside"
-			case 1:
-				m = mutated{e: pki.Endorse(baseGolden(), w.sign.cert.Raw, w.sign.key), kind: "none"}
-				timeClass = "inside"
-			case 2:
-				m = mutated{e: pki.Endorse(baseGolden(), w.sign.cert.Raw, w.sign.key), kind: "none"}
-				rootKind = "genuine"
-			}
+		cs := caseSpec{entry: pick(t, "entry", entries), rootKind: pick(t, "roots", rootKinds), timeClass: pick(t, "time", timeClasses)}
+		kind := pick(t, "mutation", mutations)
+		shape := "base"
+		if i := uniform(t, "shape", 2*len(shapes)); i < len(shapes) {
+			shape = shapes[i]
 		}
-		snpOptKind := rapid.IntRange(0, 3).Draw(t, "snpOpts")
-		checkCase(t, name, entry, m, rootKind, timeClass, w, snpOptKind)
+		// bias: keep everything but one thing genuine so that the single broken clause decides
+		switch uniform(t, "isolate", 8) {
+		case 0, 1, 2:
+			cs.rootKind, cs.timeClass = "genuine", "inside"
+		case 3:
+			kind, cs.timeClass = "none", "inside"
+		case 4:
+			kind, cs.rootKind = "none", "genuine"
+		}
+		cs.m = mutate(t, w, kind, shape)
+		cs.snpOptKind = uniform(t, "snpOpts", 4)
+		cs.attFmt = pick(t, "attFmt", []string{"tpm", "snpproto", "raw"})
+		cs.rootDER = uniform(t, "rootDER", 3) == 0
+		checkCase(t, name, cs, w)
 	})
 }
 
-// Exhaustive bit-flip sweep over the signature and the first 64 certificate bytes of one
-// endorsement for the cheap entry points, and a full (entry x mutation-kind) grid with genuine
-// roots and time so that every entry point sees every mutation kind in every run.
+// A true product: every entry point sees every mutation kind in every run, under four
+// configurations, with one drawn instance per cell.
 func TestAuthenticityGrid(t *testing.T) {
 	const name = "authenticity/grid"
-	ev.Rule(name, "full grid entry point x mutation kind x {genuine roots/inside, foreign roots/inside, genuine roots/after expiry} with one drawn instance per cell; same oracle; all cells non-trivial except accepted-unmutated-untrusted; distinct = cell")
+	ev.Rule(name, "product entry point x mutation kind x {genuine roots/inside, foreign roots/inside, genuine roots/after expiry, nil roots/inside (library entries)} over the base payload, one drawn instance per cell; "+oracleText+"; distinct = cell")
 	checks(1)
 	rapid.Check(t, func(t *rapid.T) {
 		w := makeWorld(t)
 		for _, entry := range entries {
-			for range mutations {
-				m := mutate(t, w)
-				for _, cfg := range [][2]string{{"genuine", "inside"}, {"foreign-same-subject", "inside"}, {"genuine", "notafter+1s"}} {
-					checkCase(t, name, entry, m, cfg[0], cfg[1], w, 0)
+			for _, kind := range mutations {
+				m := mutate(t, w, kind, "base")
+				for _, cfg := range [][2]string{{"genuine", "inside"}, {"foreign-same-subject", "inside"}, {"genuine", "notafter+1s"}, {"nil", "inside"}} {
+					if cfg[0] == "nil" && isCLI(entry) {
+						continue
+					}
+					checkCase(t, name, caseSpec{entry: entry, m: m, rootKind: cfg[0], timeClass: cfg[1], attFmt: "tpm"}, w)
 				}
 			}
 		}
 	})
 }
 
+// What the payload says about itself must not move the decision: every entry point x every payload
+// shape, genuinely signed and with a broken signature.
+func TestPayloadShapes(t *testing.T) {
+	const name = "authenticity/payload-shapes"
+	ev.Rule(name, "product entry point x payload shape x {unmutated, flipped signature bit} x {genuine roots/inside, genuine roots/after expiry, genuine roots/before validity, foreign roots/inside}; "+oracleText+"; distinct = cell")
+	checks(1)
+	rapid.Check(t, func(t *rapid.T) {
+		w := makeWorld(t)
+		for _, entry := range entries {
+			for _, shape := range shapes {
+				for _, kind := range []string{"none", "flip-signature"} {
+					m := mutate(t, w, kind, shape)
+					for _, cfg := range [][2]string{{"genuine", "inside"}, {"genuine", "notafter+1s"}, {"genuine", "notbefore-1s"}, {"foreign-same-subject", "inside"}} {
+						checkCase(t, name, caseSpec{entry: entry, m: m, rootKind: cfg[0], timeClass: cfg[1], attFmt: "tpm"}, w)
+					}
+				}
+			}
+		}
+	})
+}
+
+// One validator closure, several calls: what it said about one endorsement must not carry over to
+// the next.
+func TestClosureSequence(t *testing.T) {
+	const name = "authenticity/closure-sequence"
+	ev.Rule(name, "one closure from SNPValidateFunc (genuine roots, time inside; endorsement passed as blob or fetched through the closure's getter) called 2-5 times with drawn endorsements (half unmutated); every call judged on its own: accept => authentic; non-trivial = a call after the first; distinct = (source, position, mutation, previous outcome)")
+	checks(ev.Scale(150, 2000))
+	rapid.Check(t, func(t *rapid.T) {
+		w := makeWorld(t)
+		roots, pool := rootSet("genuine", w, w.sign.cert)
+		now := pickTime("inside", w.sign.cert)
+		viaGetter := rapid.Bool().Draw(t, "viaGetter")
+		url := verify.GCETcbURL(extractsev.GCETcbObjectName(sev.GCEUefiFamilyID, snpMeas))
+		g := &recGetter{body: map[string][]byte{}}
+		opts := &verify.Options{RootsOfTrust: pool, Now: now}
+		if viaGetter {
+			opts.Getter = g
+		}
+		f := verify.SNPValidateFunc(opts)
+		prev := "first"
+		n := rapid.IntRange(2, 5).Draw(t, "calls")
+		for i := 0; i < n; i++ {
+			kind := "none"
+			if rapid.Bool().Draw(t, "mutateThis") {
+				kind = pick(t, "mutation", mutations)
+			}
+			m := mutate(t, w, kind, "base")
+			eb, _ := proto.Marshal(m.e)
+			var err error
+			var pan any
+			func() {
+				defer func() { pan = recover() }()
+				if viaGetter {
+					g.body[url] = eb
+					err = f(attest.SnpAttestation(snpMeas, nil), nil)
+				} else {
+					err = f(attest.SnpAttestation(snpMeas, nil), eb)
+				}
+			}()
+			if pan != nil {
+				ev.Case(name, false, "", "inconclusive/panic", nil)
+				return
+			}
+			refOK, why := refAuthenticAt(m.e, roots, now)
+			if err == nil && !refOK {
+				ev.Violation(t, "C01/snp/accepted-unauthentic", "call %d of one validator closure accepted an endorsement that is not authentic: %s (mutation=%s, previous call: %s)", i+1, why, kind, prev)
+				return
+			}
+			if kind == "none" && err != nil {
+				ev.Violation(t, "C01/genuine-rejected", "call %d of one validator closure rejected a genuine endorsement (previous call: %s): %v", i+1, prev, err)
+				return
+			}
+			out := "rejected"
+			if err == nil {
+				out = "accepted"
+			}
+			ev.Case(name, i > 0, fmt.Sprintf("%v|%d|%s|%s", viaGetter, i, kind, prev), prev+"->"+out, nil)
+			prev = out
+		}
+	})
+}
+
+// Exhaustive bit-flip sweep over the signature and the head of the certificate, plus one bit in
+// every further certificate byte, for the cheap entry points.
 func TestBitflipSweep(t *testing.T) {
 	const name = "authenticity/bitflip-sweep"
-	ev.Rule(name, "every single-bit flip of the 256-byte signature and of the first 64 bytes of the embedded certificate of one genuine endorsement, through verify.Endorsement and TdxValidate with genuine roots inside the window; oracle as above; all non-trivial; distinct = (entry, region, bit index)")
+	ev.Rule(name, "every single-bit flip of the 256-byte signature and of the first 64 bytes of the embedded certificate, and one bit (index = offset mod 8) of every later certificate byte (validity, subject, key, issuer signature), of one genuine endorsement, through verify.Endorsement and TdxValidate with genuine roots inside the window; accept => authentic; all non-trivial; distinct = (entry, region, bit index)")
 	w := &world{}
 	checks(1)
 	rapid.Check(t, func(rt *rapid.T) { w = makeWorld(rt) })
-	e := pki.Endorse(baseGolden(), w.sign.cert.Raw, w.sign.key)
+	e := pki.Endorse(baseGolden(), w.sign.cert.Raw, w.sign.rsa())
 	roots, pool := rootSet("genuine", w, w.sign.cert)
 	now := pickTime("inside", w.sign.cert)
 	certOff := bytes.Index(e.SerializedUefiGolden, w.sign.cert.Raw)
+	certLen := len(w.sign.cert.Raw)
 	type region struct {
 		name    string
 		n       int
 		mutator func(i int) *epb.VMLaunchEndorsement
+	}
+	flipPayload := func(byteOff, bit int) *epb.VMLaunchEndorsement {
+		p := append([]byte(nil), e.SerializedUefiGolden...)
+		p[certOff+byteOff] ^= 1 << bit
+		return &epb.VMLaunchEndorsement{SerializedUefiGolden: p, Signature: e.Signature}
 	}
 	regions := []region{
 		{"signature", len(e.Signature) * 8, func(i int) *epb.VMLaunchEndorsement {
@@ -566,11 +651,8 @@ func TestBitflipSweep(t *testing.T) {
 			s[i/8] ^= 1 << (i % 8)
 			return &epb.VMLaunchEndorsement{SerializedUefiGolden: e.SerializedUefiGolden, Signature: s}
 		}},
-		{"certificate", 64 * 8, func(i int) *epb.VMLaunchEndorsement {
-			p := append([]byte(nil), e.SerializedUefiGolden...)
-			p[certOff+i/8] ^= 1 << (i % 8)
-			return &epb.VMLaunchEndorsement{SerializedUefiGolden: p, Signature: e.Signature}
-		}},
+		{"certificate", 64 * 8, func(i int) *epb.VMLaunchEndorsement { return flipPayload(i/8, i%8) }},
+		{"certificate-tail", certLen - 64, func(i int) *epb.VMLaunchEndorsement { return flipPayload(64+i, (64+i)%8) }},
 	}
 	sweepEntries := []string{"verify.Endorsement", "TdxValidate/opts"}
 	if ev.Tier() == "thorough" {
@@ -580,11 +662,12 @@ func TestBitflipSweep(t *testing.T) {
 		for _, r := range regions {
 			for i := 0; i < r.n; i++ {
 				me := r.mutator(i)
-				accepted, _, pan := run(entry, me, pool, roots, now, 0)
-				if pan != nil {
+				accepted, _, pan, skip := run(runCfg{entry: entry, e: me, pool: pool, roots: roots, now: now})
+				if pan != nil || skip != "" {
+					ev.Case(name, false, "", "inconclusive/"+entry, nil)
 					continue
 				}
-				refOK, why := pki.RefAuthentic(me, roots, now)
+				refOK, why := refAuthenticAt(me, roots, now)
 				if accepted && !refOK {
 					tech := "snp"
 					if entry == "TdxValidate/opts" {
@@ -624,31 +707,34 @@ func TestRegressionTdxValidateVerifiesEndorsement(t *testing.T) {
 		{"empty-roots", good, nil, t0},
 		{"expired", good, []*x509.Certificate{root}, t0.Add(60 * day)},
 	}
+	tdxEntries := []string{"TdxValidate/opts", "cli/tdx-validate", "TdxValidate/fetched", "cli/tdx-validate/fetched"}
 	for _, c := range cases {
-		for _, entry := range []string{"TdxValidate/opts", "cli/tdx-validate"} {
+		for _, entry := range tdxEntries {
 			roots := c.roots
 			pool := pki.Pool(roots)
-			if entry == "cli/tdx-validate" && len(roots) == 0 {
+			if isCLI(entry) && len(roots) == 0 {
 				continue
 			}
-			accepted, _, pan := run(entry, c.e, pool, roots, c.now, 0)
-			if pan != nil {
+			accepted, _, pan, skip := run(runCfg{entry: entry, e: c.e, pool: pool, roots: roots, now: c.now})
+			if pan != nil || skip != "" {
 				continue
 			}
-			if ok, why := pki.RefAuthentic(c.e, roots, c.now); accepted && !ok {
+			if ok, why := refAuthenticAt(c.e, roots, c.now); accepted && !ok {
 				ev.Violation(t, "C01/tdx-validate/accepted-unauthentic", "%s accepted case %s: %s", entry, c.label, why)
 				continue
 			}
 			ev.Case(name, true, entry+c.label, c.label, func() any { return map[string]any{"entry": entry, "case": c.label, "accepted": accepted} })
 		}
 	}
-	// and the genuine one is still accepted
-	for _, entry := range []string{"TdxValidate/opts", "cli/tdx-validate"} {
-		accepted, errText, _ := run(entry, good, pki.Pool([]*x509.Certificate{root}), []*x509.Certificate{root}, t0, 0)
-		if !accepted {
-			ev.Violation(t, "C01/genuine-rejected", "%s rejected the genuine endorsement: %s", entry, errText)
+	// and the genuine one is still accepted (informational: TDX validation also has a policy side)
+	for _, entry := range tdxEntries {
+		accepted, errText, _, skip := run(runCfg{entry: entry, e: good, pool: pki.Pool([]*x509.Certificate{root}), roots: []*x509.Certificate{root}, now: t0})
+		if skip != "" {
+			continue
 		}
-		ev.Case(name, true, entry+"genuine", "genuine", func() any { return map[string]any{"entry": entry, "case": "genuine", "accepted": accepted} })
+		if !accepted {
+			ev.Note("%s rejected the genuine endorsement (not judged): %s", entry, errText)
+		}
+		ev.Case(name, accepted, entry+"genuine", "genuine", func() any { return map[string]any{"entry": entry, "case": "genuine", "accepted": accepted} })
 	}
-	_ = hex.EncodeToString
 }
